@@ -43,6 +43,27 @@ def n14_ifexp(xs, p):
         out[i] = 1 if x < p else 0
     return out
 
+class _Ops:
+    def __init__(self):
+        self.log = []
+    def a(self, x):
+        self.log.append(('a', x))
+    def b(self, x):
+        self.log.append(('b', x))
+
+def n15_names(x):
+    o = _Ops()
+    for name in ('a', 'b', 'a'):
+        getattr(o, name)(x)
+    return o.log
+
+def n3_temp_append(xs):
+    out = []
+    for x in xs:
+        y = (x, x * 2)
+        out.append(y)
+    return out
+
 def n2_counter(xs):
     acc = []
     k = 0
@@ -197,6 +218,8 @@ def uses_slot(rows, k):
 INPUTS = {
     'n1_guard': [([],), ([1, 2, 3, 4, 5, 6, 9],)],
     'n2_counter': [([],), (['a', 'b', 'c'],)],
+    'n3_temp_append': [([],), ([1, 2, 3],)],
+    'n15_names': [(1,), ('z',)],
     'n13_index_only': [([],), ([1, 2, 3],)],
     'n13_resized': [([],), ([1, 2, 3],)],
     'n14_ifexp': [([], 1), ([1, 2, 3, float('nan')], 2)],
@@ -263,6 +286,9 @@ def run():
     f1 = next(f for f in norm.body if f.name == 'n14_ifexp')
     if ' if x < p else ' in ast.unparse(f1):
         problems.append(('coverage', 'n14_ifexp not rewritten', None))
+    f1 = next(f for f in norm.body if f.name == 'n15_names')
+    if 'getattr' in ast.unparse(f1):
+        problems.append(('coverage', 'n15_names not rewritten', None))
     f1 = next(f for f in norm.body if f.name == 'n11_two')
     if 'zip' not in ast.unparse(f1):
         problems.append(('coverage', 'n11_two not rewritten', None))
